@@ -246,6 +246,39 @@ def boundary_worker(item):
     return acc
 
 
+def large_worker(item):
+    """Counts beyond 2**24 (where a float32 running count stops growing): T targets on top, then D decoys, then M
+    targets, scores all distinct.  The defining formula in closed form: q_i = min over the ranks j at or below i of
+    (decoys above-or-at j + 1) / (targets above-or-at j), computed with int64 counts and float64 division."""
+    import mokapot.qvalues as mq
+
+    T, D, M, desc = item
+    acc = Acc()
+    n = T + D + M
+    case = {"axis": "large", "targets_top": T, "decoys": D, "targets_below": M, "desc": desc}
+    lab = np.ones(n, dtype=bool)
+    lab[T:T + D] = False
+    s = np.arange(n, 0, -1, dtype=np.float64) if desc else np.arange(n, dtype=np.float64)  # rank 0 is the best either way
+    ct = np.cumsum(lab, dtype=np.int64)
+    cd = np.arange(1, n + 1, dtype=np.int64) - ct
+    want = np.minimum(1.0, np.minimum.accumulate(((cd + 1) / ct)[::-1])[::-1])
+    del ct, cd
+    try:
+        q = np.asarray(mq.tdc(s, lab, desc=desc), dtype=float)
+    except Exception as e:
+        acc.violation(Violation(f"tdc-raises:{type(e).__name__}", f"tdc raised {e!r} on {n} PSMs", case))
+        return acc
+    err = float(np.max(np.abs(q - want))) if q.shape == want.shape else float("inf")
+    acc.case(key=("large", T, D, M, desc), nontrivial=True, outcome=round(err, 9), sample=case)
+    acc.count("large_count_cases")
+    if not err <= 2.0 ** -22:
+        i = int(np.argmax(np.abs(q - want))) if q.shape == want.shape else -1
+        acc.violation(Violation("tdc-formula-large-counts", f"{n} PSMs ({T} targets, {D} decoys, {M} targets, best first): q-value of "
+                                f"rank {i} is {q[i] if i >= 0 else None!r}, the formula gives {want[i] if i >= 0 else None!r}", case,
+                                expected=float(want[i]) if i >= 0 else None, observed=float(q[i]) if i >= 0 else None))
+    return acc
+
+
 def boundary_items():
     out = []
     for thr in (0.01, 0.05, 0.1):
@@ -278,8 +311,11 @@ def run(ctx):
             items.append((n, prefix, opts))
     ctx.pmap(worker, items, chunksize=1)
     ctx.pmap(boundary_worker, boundary_items())
+    large = [(2 ** 24 + 3, 2 ** 20, 2 ** 20, True)] if ctx.quick else \
+        [(2 ** 24 + 3, 2 ** 20, 2 ** 20, d) for d in (True, False)] + [(2 ** 20, 2 ** 24 + 3, 2 ** 20, True)]
+    ctx.pmap(large_worker, large, chunksize=1)
     ctx.exhaustive = True
-    ctx.info["bound"] = {"n_max_complete": nmax, **opts}
+    ctx.info["bound"] = {"n_max_complete": nmax, "large_count_vectors": [list(x) for x in large], **opts}
     ctx.info["explanation"] = (
         f"every weak ordering x every label vector x both directions for n<={nmax}; dtype/rescaling axis "
         f"for n<={opts['n_dtype']}; label thresholds for n<={opts['n_labels']}"
@@ -292,6 +328,8 @@ def replay(case):
 
     acc = Acc()
     axis = case.get("axis", "core")
+    if axis == "large":
+        return large_worker((case["targets_top"], case["decoys"], case["targets_below"], case["desc"])).violations
     if axis == "boundary":
         a = boundary_worker((case["thr"], case["targets"], case["decoys"], (case["decoys"] + 1) / case["targets"] <= case["thr"]))
         return a.violations
